@@ -8,7 +8,7 @@ func init() {
 	})
 	add(&runner.Spec{
 		Prop: "C01",
-		Rule: "every type of the run-time type grammar to depth 2 (31 leaves incl. named Marshaler/TextMarshaler implementers, recursive and embedded structs; constructors *T, []T, [2]T, [0]T, map[K]T, struct with 6 tag sets, two- and three-field structs) x every value with at most D non-default positions (D=2 quick, 3 thorough; per-kind boundary domains) x 3 placements (direct, behind a pointer, inside interface{}) x 4 encoder configurations, each compared with encoding/json. distinct_nontrivial counts distinct (placement, configuration, difference kind) outcomes.",
+		Rule: "every type of the run-time type grammar to depth 2 (31 leaves incl. named Marshaler/TextMarshaler implementers, recursive and embedded structs; constructors *T, []T, [2]T, [0]T, map[K]T, struct with 6 tag sets, two- and three-field structs) x every value with at most D non-default positions (D=2 quick, 3 thorough; per-kind boundary domains) x 3 placements (direct, behind a pointer, inside interface{}) x 4 encoder configurations, each compared with encoding/json. distinct_nontrivial counts distinct (placement, configuration, difference kind) outcomes. Floating-point values: ~190 boundary values (powers of two and ten, format switch-over at 1e-6 and 1e21, subnormals, limits of float32 and float64, 2^53) with their +-3 (thorough +-40) ulp neighbours in float64 and float32, in 16 positions (scalar, pointer, slice, array, map value, map key, struct member plain / ,string / ,omitempty, inside interface{}) x {Marshal, MarshalIndent}: bytes equal to encoding/json.",
 		StatesAre: "distinct (placement, configuration, difference-kind) outcomes",
 		Assume: append([]string{
 			"encoding/json on the identical value is the reference; error texts are not compared; tokens compared by decoded string contents and exact number value",
@@ -18,6 +18,7 @@ func init() {
 			return []runner.Job{
 				{Harness: "c01.types", Mode: "plain", Shards: 16, Deadline: tiered(tier, 0, 0)},
 				{Harness: "enc.fatal", Mode: "plain", Shards: 4, MaxRSS: 2048},
+				{Harness: "c01.floats", Mode: "plain", Shards: 16},
 			}
 		},
 	})
